@@ -15,6 +15,9 @@ pub enum Mode {
     Sync,
     Nowait,
     Passive,
+    /// queues only: declare synchronously, then purge (nowait) through the handle that was returned, so
+    /// that the name in the handle (the server's, for an empty requested name) reaches the wire
+    SyncThenUse,
 }
 
 #[derive(Clone, Debug, PartialEq)]
@@ -483,6 +486,7 @@ impl WorkerCtx {
                     Mode::Sync => ch.queue_declare(name.clone(), opts),
                     Mode::Nowait => ch.queue_declare_nowait(name.clone(), opts),
                     Mode::Passive => ch.queue_declare_passive(name.clone()),
+                    Mode::SyncThenUse => ch.queue_declare(name.clone(), opts).and_then(|q| q.purge_nowait().map(|_| q)),
                 };
                 match r {
                     Ok(q) => OpResult::Queue { name: q.name().to_string(), message_count: q.declared_message_count(), consumer_count: q.declared_consumer_count() },
@@ -578,6 +582,7 @@ impl WorkerCtx {
                     Mode::Sync => ch.exchange_declare(ty.to_amiquip(), name.clone(), o),
                     Mode::Nowait => ch.exchange_declare_nowait(ty.to_amiquip(), name.clone(), o),
                     Mode::Passive => ch.exchange_declare_passive(name.clone()),
+                    Mode::SyncThenUse => ch.exchange_declare(ty.to_amiquip(), name.clone(), o),
                 };
                 match r {
                     Ok(x) => OpResult::Queue { name: x.name().to_string(), message_count: None, consumer_count: None },
